@@ -21,6 +21,19 @@ type hashState struct {
 }
 
 func (ex *Exec) digest(alg string, size int, in []*Term) []*Term {
+	if ex.p.stubSet["hash-injective"] {
+		// collision-resistant model on short inputs: input ‖ 0x80 ‖ zeros
+		if len(in) > size-1 {
+			ex.unsupported("hash-injective model: input of %d bytes is too long for a %d-byte digest", len(in), size)
+		}
+		out := make([]*Term, size)
+		copy(out, in)
+		out[len(in)] = byteConst(0x80)
+		for i := len(in) + 1; i < size; i++ {
+			out[i] = byteConst(0)
+		}
+		return out
+	}
 	allConc := true
 	for _, b := range in {
 		if !b.IsConst() {
@@ -185,6 +198,36 @@ func init() {
 		p.reg("crypto/sha256.Sum256", func(ex *Exec, fr *Frame, args []Value) Value {
 			d := ex.digest("sha256", 32, termsOf(args[0]))
 			return Array(termsToValues(d))
+		})
+		p.reg("github.com/multiformats/go-multihash.Sum", func(ex *Exec, fr *Frame, args []Value) Value {
+			data := termsOf(args[0])
+			code := args[1].(*Term)
+			ln := args[2].(*Term)
+			if !code.IsConst() || !ln.IsConst() {
+				ex.unsupported("multihash.Sum with symbolic code or length")
+			}
+			var d []*Term
+			switch code.val {
+			case 0x12:
+				d = ex.digest("sha256", 32, data)
+			case 0x13:
+				d = ex.digest("sha512", 64, data)
+			case 0x56:
+				d = ex.digest("sha256", 32, ex.digest("sha256", 32, data))
+			case 0x00:
+				d = data
+			default:
+				ex.unsupported("multihash.Sum: hash code %#x not modelled", code.val)
+			}
+			l := int(signExt(ln.val, 64))
+			if l >= 0 {
+				if l > len(d) {
+					return Tuple{[]Value(nil), ex.newErrorString("requested length was too large for digest")}
+				}
+				d = d[:l]
+			}
+			enc := ex.p.funcByName("github.com/multiformats/go-multihash", "Encode")
+			return ex.callSSA(fr, fr.callPos, enc, []Value{termsToValues(d), code}, nil)
 		})
 		p.reg("crypto/aes.NewCipher", func(ex *Exec, fr *Frame, args []Value) Value {
 			key := termsOf(args[0])
